@@ -411,6 +411,52 @@ fn configs(tier: Tier) -> Vec<Tl> {
     v
 }
 
+/// One layer, two runtimes: the first request is served on a runtime that is then dropped (a
+/// stack in a `static` shared by several tests, a bootstrap runtime followed by a serving one);
+/// the second request, on a fresh runtime, finds an inner call that answers in time and must get
+/// its answer, in both modes.
+fn two_runtimes(rep: &mut Report) {
+    for cancel in [true, false] {
+        let wa = World::new(0, 10, trv_core::inner::Mode::Script, 1);
+        wa.inner.lock().unwrap().default_plan = trv_core::inner::Plan::now(Out::Ok);
+        let state = wa.inner.clone();
+        let layer = TimeLimiterLayer::builder().timeout_duration(Duration::from_millis(100)).cancel_running_future(cancel).build();
+        let mut svc = layer.clone().layer(GatedInner::new(wa.inner.clone()));
+        let first = wa.block_on(async {
+            let _ = futures::future::poll_fn(|cx| tower::Service::<Req>::poll_ready(&mut svc, cx)).await;
+            tower::Service::call(&mut svc, Req::new(1, 0)).await.is_ok()
+        });
+        drop(wa);
+        let wb = World::new(0, 10, trv_core::inner::Mode::Script, 1);
+        let mut svc2 = svc.clone();
+        let second = std::panic::catch_unwind(std::panic::AssertUnwindSafe(|| {
+            wb.block_on(async {
+                let _ = futures::future::poll_fn(|cx| tower::Service::<Req>::poll_ready(&mut svc2, cx)).await;
+                match tower::Service::call(&mut svc2, Req::new(2, 0)).await {
+                    Ok(_) => "ok".to_string(),
+                    Err(TimeLimiterError::Timeout) => "timeout".to_string(),
+                    Err(TimeLimiterError::Inner(_)) => "inner error".to_string(),
+                }
+            })
+        }))
+        .unwrap_or_else(|_| "panicked".to_string());
+        let calls = state.lock().unwrap().calls.len();
+        rep.evaluations += 1;
+        rep.witness("second_request_on_a_second_runtime", 1);
+        if !first || second != "ok" || calls != 2 {
+            rep.violations.push(trv_core::evidence::Violation {
+                property: "C06".into(),
+                kind: "second_runtime_not_served".into(),
+                site: if cancel { "cancel_mode" } else { "background_mode" }.into(),
+                config: format!("timelimiter cancel={cancel} timeout=100ms, one layer used from two runtimes in turn"),
+                history: serde_json::json!(["request 1 on runtime A", "runtime A dropped", "request 2 on runtime B"]),
+                detail: format!("first request ok={first}; second request (inner call answers at once): {second}; inner calls {calls}"),
+                log: vec![],
+            });
+        }
+    }
+}
+
 fn main() {
     trv_core::startup();
     let cli = trv_core::parse_cli();
@@ -445,5 +491,6 @@ fn main() {
             svcx::validate_abstraction(&cfg, 6, &ex.fingerprints, ex.depth_completed, &mut rep);
         }
     }
+    two_runtimes(&mut rep);
     trv_core::finish(rep);
 }
